@@ -28,6 +28,7 @@ fn lists() -> Vec<Vec<Det>> {
         vec![q().feat(&a1, 0.9)],                                     // far away, looks like the first object
         vec![q().feat(&b, 0.8), p1().shift(0.5, 0.5).feat(&a, 0.85)],
         vec![p1().shift(-0.5, 0.0).feat(&a1, 0.4)], // between the use and collect thresholds
+        vec![q().shift(3.0, 0.0).feat(&fc(), 0.9)], // far away, half-way look (cosine .5 to a): a claim only under a low cosine threshold
     ]
 }
 
@@ -277,6 +278,17 @@ fn option_grid(tier: Tier) -> Vec<TrkCfg> {
             }
         }
     }
+    // a low cosine threshold (similarities between t and 1-t count as votes)
+    for (k, (pos, min_votes)) in [(Pos::Iou(0.3), 1usize), (Pos::Maha, 2), (Pos::Maha, 1), (Pos::Iou(0.3), 2)].into_iter().enumerate() {
+        if tier == Tier::Thorough || k < 2 {
+            let mut c = TrkCfg::new(Kind::VisualSort);
+            c.pos = pos;
+            c.max_idle = 1;
+            c.min_conf = 0.1;
+            c.vis = VisOpts { metric: Vis::Cosine(0.2), min_votes, min_track_len: 1, max_obs: 3, q_use: 0.0, q_collect: 0.6, min_area: 0.0, own_use: 0.0, own_collect: 0.0 };
+            extra.push(c);
+        }
+    }
     if tier == Tier::Thorough {
         all.extend(extra);
         return all;
@@ -298,7 +310,7 @@ fn option_grid(tier: Tier) -> Vec<TrkCfg> {
 pub fn run(tier: Tier) -> Report {
     let rep = Report::new("C12", tier);
     let ls = Arc::new(lists());
-    rep.set_rule("every call history of depth <= D (quick 4 for VisualSort, thorough 4 on the full grid; VisualSort; BatchVisualSort one level shallower on a sub-grid) over 12 detection lists (same look, look-alike, swapped appearances, no feature, low quality, small box, mutual occlusion, far-away look-alike, empty) x option grid {Euclidean(.5) / cosine(.9)} x {IoU, Mahalanobis} x min votes {1,2} x minimal track length {1,2} x max observations {2,3} x use/collect quality {(0,.6),(.5,.3)} x minimal area {0,150} x own-area share use/collect {(0,0),(.5,.2)} plus each threshold switched on alone {(.5,0),(0,.3)} (quick: covering subset in which every option takes every value; thorough: all 512); before every call the galleries are read from the store and usable / collected / votes / weights / contests / positional fallback re-derived independently. Non-trivial = call with at least one appearance claim.");
+    rep.set_rule("every call history of depth <= D (quick 4 for VisualSort, thorough 4 on the full grid; VisualSort; BatchVisualSort one level shallower on a sub-grid) over 13 detection lists (same look, look-alike, half-way look, swapped appearances, no feature, low quality, small box, mutual occlusion, far-away look-alike, empty) x option grid {Euclidean(.5) / cosine(.9); plus cosine(.2) configurations} x {IoU, Mahalanobis} x min votes {1,2} x minimal track length {1,2} x max observations {2,3} x use/collect quality {(0,.6),(.5,.3)} x minimal area {0,150} x own-area share use/collect {(0,0),(.5,.2)} plus each threshold switched on alone {(.5,0),(0,.3)} (quick: covering subset in which every option takes every value; thorough: all 512); before every call the galleries are read from the store and usable / collected / votes / weights / contests / positional fallback re-derived independently. Non-trivial = call with at least one appearance claim.");
     rep.assume("decisions within 1e-3 of a threshold or vote weights within 1e-4 of each other are accepted either way (counted as undecided)");
     let grid = option_grid(tier);
     rep.extra("option_points", json!(grid.len()));
